@@ -316,7 +316,23 @@ func checkSwitch(rc *RC, ts *TypedSwitch) {
 			cl := spec.Class(label)
 			byClass[cl] = append(byClass[cl], &armForm{arm, text, c.Notes})
 		} else {
-			rc.S.Ok("K3", key, rc.P.Pos(arm.Clause.Pos()), "multi-type arm").Trivial = true
+			// an arm that serves several element types cannot use a construct that is specific to
+			// one of them (case Int8, Uint8: ArgmaxU8(a.Uint8s()) orders int8 data as unsigned)
+			bad := ""
+			for _, m := range typedMentions(rc.P, info, arm.Clause.Body) {
+				if strings.HasPrefix(m.What, "function literal") || strings.HasPrefix(m.What, "assertion") {
+					if m.Kind == types.Int || m.Kind == types.Bool {
+						continue
+					}
+				}
+				bad = fmt.Sprintf("arm labelled %s serves several element types but uses %s (a %s construct) at %s", arm.Label, m.What, types.Typ[m.Kind].Name(), rc.P.Pos(m.Pos.Pos()))
+				break
+			}
+			if bad != "" {
+				rc.S.Viol("K3", key, rc.P.Pos(arm.Clause.Pos()), bad)
+			} else {
+				rc.S.Ok("K3", key, rc.P.Pos(arm.Clause.Pos()), "multi-type arm without type-specific constructs").Trivial = true
+			}
 		}
 	}
 	// signed and unsigned integers form one class when all of them agree, two otherwise
